@@ -345,8 +345,9 @@ def run_cases(ctx, cases, exes, drv, flavours):
             if i in crash_at:
                 crashed = True
                 rc, err = crash_at[i]
-                sig = HAZ[5] if hz == 5 else "crash:" + ("tj" if is_tj else "lib")
-                ctx.violation("implementation crashed (%s build, rc=%d)%s: %s" % (
+                sig = HAZ[hz] if hz in HAZ else "crash:" + ("tj" if is_tj else "lib")
+                ctx.violation("implementation %s (%s build, rc=%d)%s: %s" % (
+                    "hung (killed by the 30 s watchdog)" if rc == -14 else "crashed",
                     fl, rc, " -- jpeg_crop_scanline re-initialises the separate upsampler while the merged one is installed" if hz == 5 else "",
                     (err.strip().split("\n") or [""])[0][:200]),
                     {"case": line, "flavour": fl, "stderr": err[-1500:]}, signature=sig)
